@@ -1,2 +1,60 @@
-(* C02 — placeholder until the keystone theorems land; see DESIGN.md *)
-From PM Require Import Model.Tree Spec.Tokens.
+(* C02 — replacing a range is exactly a splice of the flat token sequence.
+   Tokens: Spec/Tokens.v (node open, node close, leaf, one token per UTF-16 text unit); a position is a
+   token index.  [tnorm] maps the attribute values inside a token to a normal form in which Python's
+   True/False are 1/0: two tokens are equal after [tnorm] exactly when the library's own `==` on nodes and
+   marks would call them equal (marks_eqb / attrs_eqb; lemmas marks_eqb_norm, attrs_eqb_norm).
+   The theorems hold for every schema, every valid document, every range and every slice whose open sides
+   have the claimed depth ([Shape]: the first os first-children and the last oe last-children are non-leaf
+   element nodes — true of every slice cut from a document).  What is not a theorem yet (cutting a slice,
+   re-inserting a cut slice, the error class of refused replaces) is evaluated per case by Corr.C02. *)
+From Coq Require Import List Arith Lia.
+From PM Require Import Model.Data Model.Mark Model.Tree Spec.Tokens
+  Proofs.ReplaceValid Proofs.SliceSides Proofs.TokenBasics Proofs.PathTokens Proofs.ReplaceTokens Proofs.SliceShape.
+Import ListNotations.
+
+Theorem C02_replace_is_token_splice : forall s doc from to sl d',
+  check s doc = true ->
+  Shape s (sl_content sl) (sl_open_start sl) (sl_open_end sl) ->
+  node_replace s doc from to sl = Ok d' ->
+  exists content',
+    d' = node_copy doc content' /\
+    List.map tnorm (ftoks s content') =
+      List.map tnorm (firstn from (ftoks s (node_content doc))) ++
+      List.map tnorm (inner_toks s sl) ++
+      List.map tnorm (skipn to (ftoks s (node_content doc))).
+Proof. exact node_replace_toks. Qed.
+Print Assumptions C02_replace_is_token_splice.
+
+(* the size changes by (size of the slice) - (size of the range) *)
+Theorem C02_replace_size : forall s doc from to sl d',
+  check s doc = true ->
+  Shape s (sl_content sl) (sl_open_start sl) (sl_open_end sl) ->
+  node_replace s doc from to sl = Ok d' ->
+  from <= frag_size s (node_content doc) /\ to <= frag_size s (node_content doc) /\
+  frag_size s (node_content d') + to =
+    frag_size s (node_content doc) + from +
+    (frag_size s (sl_content sl) - sl_open_start sl - sl_open_end sl).
+Proof.
+  intros s doc from to sl d' Hd Hs H.
+  destruct (node_replace_toks s doc from to sl d' Hd Hs H) as (X & -> & Ht).
+  unfold node_replace in H.
+  destruct (resolve s doc from) as [rf|] eqn:Ef; [|discriminate].
+  destruct (resolve s doc to) as [rt|] eqn:Et; [|discriminate].
+  destruct (resolve_tokens s _ _ _ Ef) as (Hlf & _). destruct (resolve_tokens s _ _ _ Et) as (Hlt & _).
+  destruct (resolve_PathShape s _ _ _ Ef 0 doc) as (Hel & _).
+  { destruct (resolve_spec s _ _ _ Ef) as (_ & _ & _ & (i & o & r & Hh) & _). unfold rp_node, path_at. rewrite Hh. reflexivity. }
+  rewrite (node_copy_content _ _ Hel).
+  unfold nt in Ht. apply (f_equal (@length tok)) in Ht. rewrite !app_length, !map_length in Ht.
+  rewrite ftoks_length, firstn_length, skipn_length, ftoks_length in Ht.
+  unfold inner_toks in Ht. rewrite firstn_length, skipn_length, ftoks_length in Ht.
+  pose proof (Shape_size s _ _ _ Hs). lia.
+Qed.
+Print Assumptions C02_replace_size.
+
+(* what it returns is valid (C01's theorem, for slices whose nodes off the open sides are valid) *)
+Theorem C02_replace_returns_valid : forall s doc from to sl d',
+  check s doc = true ->
+  OpenOK s (sl_content sl) (sl_open_start sl) (sl_open_end sl) ->
+  node_replace s doc from to sl = Ok d' -> check s d' = true.
+Proof. exact node_replace_valid_open. Qed.
+Print Assumptions C02_replace_returns_valid.
